@@ -36,7 +36,13 @@ CONSTANTS Shapes,      \* set of <<H,W>>: frames of the 2D masks explored (every
           HistShapes,  \* history machine: frames of the 2D grids (every non-empty mask) ...
           HistLens,    \* ... lengths of the 1D grids (every non-empty 1D mask) and irregular coordinate sets ...
           HistGeoms,   \* ... geometries <<s, cy, cx, R>> of the 2D grids (R alone is used for irregular sets) ...
-          HistLen      \* ... and the number of decorated calls made on ONE grid object
+          HistLen,     \* ... and the number of decorated calls made on ONE grid object
+          DerShapes, DerLens, DerGeoms,   \* the same for the histories with a Derive step between the first and the second call
+          DerOps,      \* the derivations << code, a, b, c >>: 1 = add the scalar a, 2 = multiply by the scalar a,
+                       \*   3 = item assignment in place: position a (0-based) := b (1D) / (b, c) (2D), 4 = slice [a:]
+          ProjShapes,  \* frames of the 2D grids handed to project_grid
+          AngleQs      \* profile angles as multiples of 90 degrees (-2 .. 5 covers every quadrant and beyond a full turn);
+                       \*   99 = the profile has no angle attribute, 98 = a numeric angle picked by the harness
 
 Zero == -1   \* source tag "this position holds 0" (a masked position of a native view)
 
@@ -158,6 +164,57 @@ OnLine(q, c, xs, S) ==
                IN /\ Abs(Cross(v[k], v[m])) <= B
                   /\ Abs(Dot(v[k], v[m]) - (xs[k] * S) * (xs[m] * S)) <= B
 
+\* The DIRECTION of the line.  The documented construction: the points start on the half-line from the centre along +x and
+\* are rotated CLOCKWISE by the line angle; project_grid uses the profile's angle + 90 degrees (0 when the profile has none),
+\* to_array / to_grid on a 1D grid use 0.  In (y, x) components the unit direction for a line angle of t quarter turns:
+QuarterDir(t) == CASE ((t % 4) + 4) % 4 = 0 -> << 0, 1 >>
+                   [] ((t % 4) + 4) % 4 = 1 -> << -1, 0 >>
+                   [] ((t % 4) + 4) % 4 = 2 -> << 0, -1 >>
+                   [] OTHER                 -> << 1, 0 >>
+NoAngle == 99
+NumericAngle == 98
+\* line angle, in quarter turns, of project_grid for a profile angle of aq quarter turns
+ProjectLineQ(aq) == IF aq = NoAngle THEN 0 ELSE aq + 1
+DS == 16384    \* a direction D is recorded as round(DS * unit vector); for quarter turns it is exact
+IsUnit(D) == Len(D) = 2 /\ Abs(D[1]) <= DS /\ Abs(D[2]) <= DS /\ Abs(Dot(D, D) - DS * DS) <= N1(D) + 1
+\* q[k] = S*c + S*xs[k]*D/DS component by component.  Rounding: 1/2 for q, at most |xs[k]*S|/DS * 1/2 <= 1/2 for D, 1/2 for
+\* the division: tolerance 2.
+OnRay(q, c, xs, S, D) ==
+    /\ Len(q) = Len(xs) /\ IsUnit(D)
+    /\ \A k \in DOMAIN xs : Abs(xs[k]) * S <= MaxRS
+    /\ \A k \in DOMAIN q :
+          /\ Len(q[k]) = 2 /\ InRange(q[k])
+          /\ \A j \in 1 .. 2 : Abs(q[k][j] - S * c[j] - Rounded((xs[k] * S) * D[j], DS)) <= 2
+
+\* ---- grids derived by the caller ------------------------------------------------
+\* Arithmetic with a scalar, slicing and item assignment give the caller a grid with NEW coordinates; a decorated call on
+\* that grid is evaluated at those.  A derivation is << code, a, b, c >> (see DerOps).
+Derive1D(xs, op) ==
+    CASE op[1] = 1 -> [k \in DOMAIN xs |-> xs[k] + op[2]]
+      [] op[1] = 2 -> [k \in DOMAIN xs |-> op[2] * xs[k]]
+      [] op[1] = 3 -> [k \in DOMAIN xs |-> IF k = op[2] + 1 THEN op[3] ELSE xs[k]]
+      [] OTHER     -> SubSeq(xs, op[2] + 1, Len(xs))
+Derive2D(ps, op) ==
+    CASE op[1] = 1 -> [k \in DOMAIN ps |-> << ps[k][1] + op[2], ps[k][2] + op[2] >>]
+      [] op[1] = 2 -> [k \in DOMAIN ps |-> << op[2] * ps[k][1], op[2] * ps[k][2] >>]
+      [] op[1] = 3 -> [k \in DOMAIN ps |-> IF k = op[2] + 1 THEN << op[3], op[4] >> ELSE << ps[k][1], ps[k][2] >>]
+      [] OTHER     -> SubSeq(ps, op[2] + 1, Len(ps))
+RECURSIVE DeriveAll(_, _, _)
+DeriveAll(cs, ops, twoD) ==
+    IF ops = << >> THEN cs
+    ELSE DeriveAll(IF twoD THEN Derive2D(cs, Head(ops)) ELSE Derive1D(cs, Head(ops)), Tail(ops), twoD)
+\* the same on TERMS << source position (0-based, -1 = assigned constant), factor, offset >>: coordinate = factor * built
+\* coordinate of the source + offset (the machine does not know the built coordinates, only where each one went)
+BuiltTerms(n) == [k \in 1 .. n |-> << k - 1, 1, 0 >>]
+DeriveTerms(g, op) ==
+    CASE op[1] = 1 -> [k \in DOMAIN g |-> << g[k][1], g[k][2], g[k][3] + op[2] >>]
+      [] op[1] = 2 -> [k \in DOMAIN g |-> << g[k][1], op[2] * g[k][2], op[2] * g[k][3] >>]
+      [] op[1] = 3 -> [k \in DOMAIN g |-> IF k = op[2] + 1 THEN << -1, 0, op[3] >> ELSE g[k]]
+      [] OTHER     -> SubSeq(g, op[2] + 1, Len(g))
+DeriveApplies(op, gk, n) == (op[1] = 4 => gk = "irr" /\ n > op[2] /\ op[2] > 0) /\ (op[1] = 3 => n > op[2])
+\* value of a term sequence on built 1D coordinates xs
+EvalTerms(g, xs) == [k \in DOMAIN g |-> IF g[k][1] < 0 THEN g[k][3] ELSE g[k][2] * xs[g[k][1] + 1] + g[k][3]]
+
 \* unit directions with exact fixed-point images: quarter turns and the 3-4-5 directions (times 5)
 Dirs5 == { <<0, 5>>, <<5, 0>>, <<0, -5>>, <<-5, 0>>, <<3, 4>>, <<-4, 3>>, <<-3, -4>>, <<4, -3>>, <<4, 3>>, <<-3, 4>> }
 \* the line through c in direction d5/5 sampled at xs (S a multiple of 5)
@@ -199,11 +256,13 @@ WrapInst ==
              : a \in {"to_array", "to_grid", "to_vector_yx"}, l \in BOOLEAN, n \in Lens }
     \cup UNION { { Mk(a, "g1d", ResultKindOf(a), l, 1, n, u, NoPar, 0, FALSE) : u \in Masks(<<1, n>>) }
                  : a \in {"to_array", "to_grid"}, l \in BOOLEAN, n \in Lens }
+\* project_grid: par = << s, cy, cx, aq >>, aq the profile angle in quarter turns (AngleQs)
 ProjectInst ==
-    UNION { UNION { { Mk("project", "g2d", "values", FALSE, sh[1], sh[2], u, << g[1], g[2], g[3], 0 >>, 0, FALSE) : u \in Masks(sh) }
-                    : sh \in MidShapes } : g \in PGeoms }
+    UNION { UNION { { Mk("project", "g2d", "values", FALSE, sh[1], sh[2], u, << g[1], g[2], g[3], aq >>, 0, FALSE) : u \in Masks(sh) }
+                    : sh \in ProjShapes } : g \in PGeoms, aq \in AngleQs }
     \cup { Mk("project", "irr", rk, FALSE, 1, n, AllCells(n), NoPar, 0, FALSE) : rk \in {"values", "pairs"}, n \in Lens }
-    \cup UNION { { Mk("project", "g1d", "values", FALSE, 1, n, u, NoPar, 0, FALSE) : u \in Masks(<<1, n>>) } : n \in Lens }
+    \cup UNION { { Mk("project", "g1d", "values", FALSE, 1, n, u, << 0, 0, 0, aq >>, 0, FALSE) : u \in Masks(<<1, n>>) }
+                 : n \in Lens, aq \in AngleQs }
 TransformInst ==
     UNION { UNION { { Mk("transform", "g2d", "values", FALSE, sh[1], sh[2], u, NoPar, d, f) : u \in Masks(sh) }
                     : sh \in MidShapes } : d \in Depths, f \in BOOLEAN }
@@ -228,7 +287,7 @@ Instances == WrapInst \cup ProjectInst \cup TransformInst \cup RelocInst \cup Ti
 Init == /\ inst \in Instances
         /\ phase = "call"
         /\ obs = << >>
-        /\ grid = Iota(Cardinality(inst.u))
+        /\ grid = BuiltTerms(Cardinality(inst.u))
         /\ hist = << >>
 
 NPts == Cardinality(inst.u)
@@ -276,33 +335,52 @@ Spec == Init /\ [][Next]_vars
 HApis(gk) == IF gk = "g1d" THEN {"to_array", "to_grid", "project"}
              ELSE {"reloc", "stack_array", "to_array", "to_grid", "to_vector_yx", "project"}
 HFirst(gk) == IF gk = "g1d" THEN HApis(gk) ELSE {"reloc", "stack_array"}
-HistInstances ==
-    UNION { UNION { { Mk("history", "g2d", "values", FALSE, sh[1], sh[2], u, g, HistLen, FALSE) : u \in Masks(sh) }
-                    : sh \in HistShapes } : g \in HistGeoms }
-    \cup { Mk("history", "irr", "values", FALSE, 1, n, AllCells(n), << 0, 0, 0, R >>, HistLen, FALSE)
-             : n \in HistLens, R \in { g[4] : g \in HistGeoms } }
-    \cup UNION { { Mk("history", "g1d", "values", FALSE, 1, n, u, NoPar, HistLen, FALSE) : u \in Masks(<<1, n>>) } : n \in HistLens }
+HistFamily(shapes, lens, geoms, der) ==
+    UNION { UNION { { Mk("history", "g2d", "values", FALSE, sh[1], sh[2], u, g, HistLen, der) : u \in Masks(sh) }
+                    : sh \in shapes } : g \in geoms }
+    \cup { Mk("history", "irr", "values", FALSE, 1, n, AllCells(n), << 0, 0, 0, R >>, HistLen, der)
+             : n \in lens, R \in { g[4] : g \in geoms } }
+    \cup UNION { { Mk("history", "g1d", "values", FALSE, 1, n, u, NoPar, HistLen, der) : u \in Masks(<<1, n>>) } : n \in lens }
+\* flag = TRUE: the caller derives a new grid from the one just evaluated and goes on with THAT grid
+HistInstances == HistFamily(HistShapes, HistLens, HistGeoms, FALSE) \cup HistFamily(DerShapes, DerLens, DerGeoms, TRUE)
 
 InitH == /\ inst \in HistInstances
          /\ phase = "history"
          /\ obs = << >>
-         /\ grid = Iota(Cardinality(inst.u))
+         /\ grid = BuiltTerms(Cardinality(inst.u))
          /\ hist = << >>
 
-\* one more decorated call `a` on the same object
+NoOp == << 0, 0, 0, 0 >>
+CallsIn(hh) == Len(SelectSeq(hh, LAMBDA e : e.api # "derive"))
+DerivesIn(hh) == Len(hh) - CallsIn(hh)
+MustDerive == inst.flag /\ CallsIn(hist) = 1 /\ DerivesIn(hist) = 0
+Dump(hh) ==
+    PrintT(ToJson([k |-> "hist", gk |-> inst.gk, h |-> inst.h, w |-> inst.w,
+                   u |-> LET ss == SlimSeq(inst.u, inst.h, inst.w) IN [j \in 1 .. Len(ss) |-> Lin(ss[j], inst.w)],
+                   par |-> inst.par, calls |-> [j \in DOMAIN hh |-> [api |-> hh[j].api, op |-> hh[j].op]]]))
+
+\* one more decorated call `a` on the grid the caller now holds
 HCall(a) ==
     /\ phase = "history"
-    /\ Len(hist) < inst.depth
+    /\ CallsIn(hist) < inst.depth
+    /\ ~ MustDerive
     /\ a \in (IF hist = << >> THEN HFirst(inst.gk) ELSE HApis(inst.gk))
-    /\ hist' = Append(hist, [api |-> a, seen |-> grid])
+    /\ hist' = Append(hist, [api |-> a, op |-> NoOp, seen |-> grid])
     /\ grid' = grid           \* whatever the call hands to the function (moved, projected, transformed) is a NEW array
-    /\ (Len(hist) + 1 = inst.depth) =>
-           PrintT(ToJson([k |-> "hist", gk |-> inst.gk, h |-> inst.h, w |-> inst.w,
-                          u |-> LET ss == SlimSeq(inst.u, inst.h, inst.w) IN [j \in 1 .. Len(ss) |-> Lin(ss[j], inst.w)],
-                          par |-> inst.par, calls |-> [j \in 1 .. Len(hist) + 1 |-> IF j <= Len(hist) THEN hist[j].api ELSE a]]))
+    /\ (CallsIn(hist) + 1 = inst.depth) => Dump(hist')
     /\ UNCHANGED << inst, phase, obs >>
 
-NextH == \E a \in HApis(inst.gk) : HCall(a)
+\* the caller derives a grid (g + a, a * g, g[a:], g[a] = b) and holds that one from now on: its coordinates are the
+\* derived ones -- this is the ONLY kind of step after which the grid reads differently
+Derive(op) ==
+    /\ phase = "history"
+    /\ MustDerive
+    /\ DeriveApplies(op, inst.gk, Len(grid))
+    /\ grid' = DeriveTerms(grid, op)
+    /\ hist' = Append(hist, [api |-> "derive", op |-> op, seen |-> grid'])
+    /\ UNCHANGED << inst, phase, obs >>
+
+NextH == (\E a \in HApis(inst.gk) : HCall(a)) \/ (\E op \in DerOps : Derive(op))
 SpecH == InitH /\ [][NextH]_vars
 
 -----------------------------------------------------------------------------
@@ -312,12 +390,24 @@ Returned == phase = "returned"
 
 \* the caller's grid is what the caller built, in every state of both machines; in a history every call worked from
 \* exactly those coordinates; and no step of either machine writes to the grid
-GridAsBuilt == grid = Iota(Cardinality(inst.u))
-HistorySeesBuiltGrid == \A j \in DOMAIN hist : hist[j].seen = Iota(Cardinality(inst.u))
+OpsOf(hh) == LET d == SelectSeq(hh, LAMBDA e : e.api = "derive") IN [j \in DOMAIN d |-> d[j].op]
+RECURSIVE TermsAfter(_, _)
+TermsAfter(g, ops) == IF ops = << >> THEN g ELSE TermsAfter(DeriveTerms(g, Head(ops)), Tail(ops))
+\* the caller's grid reads as built, modified by the caller's own derivations and by nothing else
+GridAsBuilt == grid = TermsAfter(BuiltTerms(Cardinality(inst.u)), OpsOf(hist))
+\* every call of a history worked from the coordinates of the grid it was given: the built ones, or the derived ones
+HistorySeesBuiltGrid ==
+    \A j \in DOMAIN hist : hist[j].seen = TermsAfter(BuiltTerms(Cardinality(inst.u)), OpsOf(SubSeq(hist, 1, j)))
 HistoryShape == phase = "history" =>
-                  /\ Len(hist) <= inst.depth
-                  /\ \A j \in DOMAIN hist : hist[j].api \in (IF j = 1 THEN HFirst(inst.gk) ELSE HApis(inst.gk))
-GridNeverWritten == [][grid' = grid]_vars
+                  /\ CallsIn(hist) <= inst.depth /\ DerivesIn(hist) <= 1
+                  /\ \A j \in DOMAIN hist : hist[j].api \in (IF j = 1 THEN HFirst(inst.gk) ELSE HApis(inst.gk) \cup {"derive"})
+\* the two formulations of a derived grid agree: terms evaluated on sample built coordinates = the derivations applied to them
+TermsDenoteCoordinates ==
+    phase = "history" /\ inst.gk = "g1d" =>
+        LET xs == [k \in 1 .. Cardinality(inst.u) |-> 10 * k - 7]
+        IN EvalTerms(grid, xs) = DeriveAll(xs, OpsOf(hist), FALSE)
+\* no call ever writes to the grid: it only changes in a Derive step
+GridNeverWritten == [][grid' # grid => (Len(hist') = Len(hist) + 1 /\ hist'[Len(hist')].api = "derive")]_vars
 Wraps == inst.api \in {"to_array", "to_grid", "to_vector_yx", "project", "stack_array", "stack_grid"}
 
 \* every explored call is one the property speaks about, and gets a container class of the grid's own family
@@ -409,6 +499,22 @@ LineAnyDirection ==
                /\ ~ OnLine(q, Add(c, <<0, 1>>), xs, S)
                /\ ~ OnLine(q, c, ProjXs(n, s + 1, 1), S)
                /\ n > 1 => ~ OnLine([k \in 1 .. n |-> q[n + 1 - k]], c, xs, S)
+\* the direction is pinned: for every line angle that is a multiple of 90 degrees (in any quadrant, negative, beyond a full
+\* turn) the points lie on the lattice along QuarterDir; the mirror image about the centre (a line angle taken modulo 180), a
+\* quarter turn the wrong way and a 3-4-5 direction are all rejected; 360 degrees more is the same line
+QuarterTurnsPinned ==
+    Returned /\ inst.api = "project" /\ inst.gk # "irr" /\ inst.par[4] \notin {NoAngle, NumericAngle} =>
+        LET t == ProjectLineQ(inst.par[4]) S == 20 c == << inst.par[2], inst.par[3] >>
+            d == QuarterDir(t)
+            xs == ProjXs(3, 4, 1)
+            q == [k \in DOMAIN xs |-> Add(Scal(S, c), Scal(xs[k] * S, d))]
+        IN /\ OnRay(q, c, xs, S, Scal(DS, d))
+           /\ OnLine(q, c, xs, S)
+           /\ ~ OnRay(q, c, xs, S, Scal(DS, QuarterDir(t + 2)))
+           /\ ~ OnRay(q, c, xs, S, Scal(DS, QuarterDir(t + 1)))
+           /\ ~ OnRay(q, c, xs, S, Scal(DS \div 5, << 3, 4 >>))
+           /\ QuarterDir(t + 4) = d /\ QuarterDir(t - 4) = d
+           /\ d[1] * d[1] + d[2] * d[2] = 1
 Line1DAnyDirection ==
     Returned /\ inst.api \in {"to_array", "project"} /\ inst.gk = "g1d" =>
         LET S == 20
